@@ -101,6 +101,9 @@ structure St where
   futs : Nat → Option (Nat × Fut) := fun _ => none
   /-- number of futures handed out so far (ids are `0 … nfut-1`) -/
   nfut : Nat := 0
+  /-- the buffer of send `id` is a RECEIVE buffer of the socket's own internal pool that the user handed back to
+  `Send` (`Op.echo`), not a buffer of the user's send pool -/
+  echo : Nat → Bool := fun _ => false
   poolAlive : Bool := true
   ub : Option String := none
   log : List Ev := []      -- newest first
@@ -119,6 +122,17 @@ inductive Op where
   | mkTodo (t d : Nat) (scheduled : Bool)
   | cancel (t : Nat) | shift (t : Nat) | dropTodo (t : Nat)
   | destroyPool
+  /-- the user passes the most recently received buffer it holds of socket `s` - a buffer of the socket's own
+  receive pool - to `Send`/`SendTo` of the same socket (the echo idiom of the repository's performance test).
+  For the model this is a `send` that takes nothing from the user's send pool and returns one held receive
+  buffer to the library; the buffer stays out of the receive pool until the send is resolved or the socket
+  dies.  NOTE (what the model does NOT say): that a queued receive buffer can be given back when the socket is
+  destroyed rests on the order in which the C++ destroys the members of `SocketAsyncImpl` (send queue before
+  `buff`, i.e. before the receive pool) - RAII below the model, "modelled, not verified".  The model has no
+  notion of member destruction order and declares `destroySock` with a queued echo legal and free of UB; the
+  evidence for the real code is the harness executing exactly such histories under ASan / assertions, where a
+  wrong order shows as a crash (= `spec` failure, clause "crash"). -/
+  | echo (s : Nat)
   deriving DecidableEq, Repr
 
 def St.setDrv (s : St) (d : Nat) (v : Drv) : St := { s with drv := fun x => if x = d then v else s.drv x }
@@ -144,8 +158,14 @@ def St.isPending (s : St) (j : Nat) : Bool :=
   | some (_, .pending) => true
   | _ => false
 
-/-- buffers of the user's send pool that are out: one per send whose future is still pending -/
-def St.poolBusy (s : St) : Nat := ((List.range s.nfut).filter s.isPending).length
+/-- send `j` is still pending and its buffer belongs to the user's send pool -/
+def St.isPoolPending (s : St) (j : Nat) : Bool := s.isPending j && !s.echo j
+
+/-- buffers of the user's send pool that are out: one per send (not echo) whose future is still pending -/
+def St.poolBusy (s : St) : Nat := ((List.range s.nfut).filter s.isPoolPending).length
+
+/-- receive buffers of socket record `k` that sit in its own send queue (echoed, not yet sent) -/
+def St.lent (s : St) (k : Sock) : Nat := (k.sendQ.filter s.echo).length
 
 /-- resolve future `id` -/
 def St.resolve (s : St) (id : Nat) (v : Fut) : St :=
@@ -156,9 +176,10 @@ def St.resolve (s : St) (id : Nat) (v : Fut) : St :=
 promises (broken) and returns its buffers to the send pool; the internal receive pool dies -/
 def St.destroySockObj (s : St) (i : Nat) : St :=
   let k := s.sock i
+  let ech := s.echo
   let s := if k.held > 0 then s.fail "socket destroyed while receive buffers of its pool are still held" else s
   let s := if (s.drv k.drv).alive then s.setDrv k.drv ((s.drv k.drv).unregister i) else s
-  let s := if k.sendQ.length > 0 ∧ ¬ s.poolAlive then s.fail "send buffer returned to a destroyed pool" else s
+  let s := if k.sendQ.any (fun id => !ech id) = true ∧ ¬ s.poolAlive then s.fail "send buffer returned to a destroyed pool" else s
   let s := { s with futs := fun j => if j ∈ k.sendQ then (s.futs j).map (fun (p : Nat × Fut) => (p.1, Fut.broken)) else s.futs j,
                     log := (k.sendQ.map fun id => Ev.fut id .broken).reverse ++ s.log }
   s.setSock i { k with alive := false, sendQ := [] }
@@ -194,14 +215,14 @@ def St.onReadable (s : St) (i : Nat) : St :=
   match k.kind with
   | .tcp =>
     if k.rx > 0 then
-      if k.held ≥ rxCap then s.disconnect i     -- "out of buffers" is a runtime_error: routed to onError
+      if k.held + s.lent k ≥ rxCap then s.disconnect i     -- "out of buffers" is a runtime_error: routed to onError
       else
         let s := s.emit (.recv i)
         if k.selfDestroyInRecv then s.fail "socket destroyed inside its own receive handler"
         else s.setSock i { k with rx := k.rx - 1, held := if k.holdRx then k.held + 1 else k.held }
     else s.disconnect i
   | .udp =>
-    if k.held ≥ rxCap then s      -- out of buffers: error discarded (UDP onError is a no-op)
+    if k.held + s.lent k ≥ rxCap then s      -- out of buffers: error discarded (UDP onError is a no-op)
     else
       let s := s.emit (.recvFrom i)
       if k.selfDestroyInRecv then s.fail "socket destroyed inside its own receive handler"
@@ -247,10 +268,12 @@ def St.wantSend (v : Variant) (s : St) (i : Nat) : St :=
     | .fixed => s                         -- already unregistered after the peer disconnected
     | .legacy => s.fail "AsyncWantSend writes through pfds.end()"
 
-/-- `DoSendEnqueue`: a new promise/future pair and the buffer go to the back of the queue -/
-def St.enqueue (s : St) (i : Nat) : St :=
+/-- `DoSendEnqueue`: a new promise/future pair and the buffer go to the back of the queue
+(`e`: the buffer is a receive buffer of the socket's own pool) -/
+def St.enqueue (s : St) (i : Nat) (e : Bool := false) : St :=
   { s.setSock i { (s.sock i) with sendQ := (s.sock i).sendQ ++ [s.nfut] } with
-      futs := fun j => if j = s.nfut then some (i, .pending) else s.futs j, nfut := s.nfut + 1 }
+      futs := fun j => if j = s.nfut then some (i, .pending) else s.futs j, nfut := s.nfut + 1,
+      echo := fun j => if j = s.nfut then e else s.echo j }
 
 def exec (v : Variant) (s : St) (op : Op) : St :=
   if s.ub.isSome then s else
@@ -268,6 +291,12 @@ def exec (v : Variant) (s : St) (op : Op) : St :=
     if ¬ k.alive then s.fail "Send on a socket that does not exist (any more)" else
     if ¬ s.poolAlive then s.fail "buffer taken from a destroyed pool" else
     if k.sendQ.isEmpty then (s.enqueue i).wantSend v i else s.enqueue i
+  | .echo i =>
+    let k := s.sock i
+    if ¬ k.alive then s.fail "Send on a socket that does not exist (any more)" else
+    if k.held = 0 then s.fail "echo of a receive buffer the user does not hold" else
+    let s1 := s.setSock i { k with held := k.held - 1 }
+    if k.sendQ.isEmpty then (s1.enqueue i true).wantSend v i else s1.enqueue i true
   | .step d => if ¬ (s.drv d).alive then s.fail "Step on a driver that does not exist (any more)" else s.step d
   -- a TCP stream coalesces what is unread (the harness' chunks are far smaller than a receive buffer)
   | .peerSend i => s.setSock i { (s.sock i) with rx := if (s.sock i).kind = .tcp then 1 else (s.sock i).rx + 1 }
@@ -312,6 +341,8 @@ def legalOp (s : St) : Op → Bool
     ! (s.sock i).present && (s.drv d).alive && ! sdr       -- no self-destruction in the receive handler
       && ! (onDisc && holdRx)                               -- ... nor with receive buffers in hand
   | .send i => (s.sock i).alive && (s.sock i).kind != .acc && s.poolAlive && s.poolBusy < poolCap
+  -- the user holds a receive buffer of the socket (hence `holdRx`); the user's send pool is not involved
+  | .echo i => (s.sock i).alive && (s.sock i).kind != .acc && (s.sock i).held > 0
   | .step d => (s.drv d).alive
   | .peerSend i => (s.sock i).present && (s.sock i).kind != .acc && (s.sock i).peer == .up
   | .peerConnect i => (s.sock i).present && (s.sock i).kind == .acc
